@@ -182,6 +182,8 @@ def tt_dimscheck(  # noqa: PLR0912
         raise ValueError(
             "Negative dims aren't allowed in pyttb, see exclude_dims argument instead"
         )
+    if len(np.unique(dim_array)) != len(dim_array):
+        raise ValueError(f"Dims provided: {dim_array} contain repeated entries")
 
     # Save dimensions of dims
     P = len(dim_array)
